@@ -40,6 +40,9 @@ def run(eng, rep) -> None:
     rep.rule("R04.5", "options of a leaf are looked up under exactly the emitted field's name; the lookup is an exact-name match; the shared default is never mutated")
     rep.rule("R04.6", "attribute stores on non-self objects target only copies")
     rep.rule("R04.8", "a loop that descends a nested type accumulates the size of the level it is at, not of the type it started from")
+    rep.rule("R04.9", "a key that stands for a schema type in the layout encoder reads every field that tells two types apart")
+    from .lints import type_identity_keys
+    type_identity_keys(eng, rep, "R04.9", ("fcp.encoding",))
     rep.rule("R04.7", "hierarchical names: the name prefix received by a layout step is handed on (extended or unchanged) to every layout step it calls, and the leaf name starts with it")
     rep.assume("propagation of an array field's options to its unrolled elements is not decided; uniqueness of names is decided only as prefix threading (R04.7), given unique field names per struct (C09)")
     enc = prog.cls(ENCODER)
